@@ -20,6 +20,13 @@ LAYOUT = {
     "umax": ([("v", "X"), ("s",), ("v", "X")], [("v", "X"), ("s",)]),
     "disc": ([("v", "X"), ("s",), ("s",)], [("v", "X"), ("s",)]),
     "fuse": ([("v", "X"), ("s",), ("v", "X"), ("v", "X"), ("s",), ("v", "X")], [("v", "X"), ("s",), ("v", "X")]),
+    # joint domains of two / three variables used as one domain: each variable is renamed independently
+    "proj2": ([("v", "X*Z"), ("s",), ("v", "X*Z")], [("v", "X*Z")]),
+    "umax2": ([("v", "X*Z"), ("s",), ("v", "X*Z")], [("v", "X*Z"), ("s",)]),
+    "fuse2": ([("v", "X*Z"), ("s",), ("v", "X*Z"), ("v", "X*Z"), ("s",), ("v", "X*Z")], [("v", "X*Z"), ("s",), ("v", "X*Z")]),
+    "proj3": ([("v", "X*Y*Z"), ("s",), ("v", "X*Y*Z")], [("v", "X*Y*Z")]),
+    "umax3": ([("v", "X*Y*Z"), ("s",), ("v", "X*Y*Z")], [("v", "X*Y*Z"), ("s",)]),
+    "fuse3": ([("v", "X*Y*Z"), ("s",), ("v", "X*Y*Z"), ("v", "X*Y*Z"), ("s",), ("v", "X*Y*Z")], [("v", "X*Y*Z"), ("s",), ("v", "X*Y*Z")]),
     "mbr": ([("v", "X"), ("t", "X", "Y")], [("v", "Y")]),
     "deduce": ([("v", "X"), ("s",), ("v", "X"), ("t", "X", "Y")], [("v", "Y"), ("s",), ("v", "Y")]),
     "inverse": ([("t", "X", "Y"), ("v", "X"), ("v", "Y")], [("t", "Y", "X")]),
@@ -30,18 +37,17 @@ LAYOUT = {
 
 
 def dom_perm(perms, sizes, d):
-    if "*" not in d:
-        return perms[d]
-    a, b = d.split("*")
-    pa, pb, nb = perms[a], perms[b], sizes[b]
-    return [pa[i] * nb + pb[j] for i in range(len(pa)) for j in range(len(pb))]
+    out = [0]
+    for a in d.split("*"):
+        out = [o * sizes[a] + pa for o in out for pa in perms[a]]
+    return out
 
 
 def dom_size(sizes, d):
-    if "*" not in d:
-        return sizes[d]
-    a, b = d.split("*")
-    return sizes[a] * sizes[b]
+    n = 1
+    for a in d.split("*"):
+        n *= sizes[a]
+    return n
 
 
 def apply_layout(layout, vals, perms, sizes):
@@ -81,6 +87,10 @@ def trivial(c):
 def build(rng, ty, op, sizes, den):
     nx, ny, nz = sizes.get("X"), sizes.get("Y"), sizes.get("Z")
     f = lambda cs: sum((flat_sx(c) for c in cs), [])
+    if op in ("proj2", "umax2", "fuse2", "proj3", "umax3", "fuse3"):
+        n = nx * nz * (ny if op.endswith("3") else 1)
+        w = G.grid_opinion(rng, n, den)
+        return flat_op(w) + (flat_op(G.grid_opinion(rng, n, den)) if op.startswith("fuse") else [])
     if op in ("proj", "umax", "fuse") and rng.chance(1, 3):
         # a value with a tiny projected probability: wherever the renaming puts it, the result must only be renamed
         w = G.tiny_projection_opinion(rng, ty, nx)
@@ -115,6 +125,20 @@ def mkcase(rng, ty, op, sizes, nums, opk, perms, gid, side):
     nx, ny, nz = sizes.get("X"), sizes.get("Y"), sizes.get("Z")
     meta = {"g": gid, "side": side, "perms": perms, "sizes": sizes, "lop": op}
     fam4 = ["arr", "marr", "marrd", "marrdn"]
+    if op in ("proj2", "umax2", "fuse2"):
+        n = nx * nz
+        hop = {"proj2": "proj2d", "umax2": "umax2d", "fuse2": "fuse2d"}[op]
+        mop = op[:-1]
+        st = "own" if op == "proj2" else "spx" if op == "umax2" else rng.choice(["own", "ref"])
+        return Case(hop, ty, rng.choice(["marr", "marrd", "marrdn"]), st, [nx, nz] + ([opk] if op == "fuse2" else []), nums,
+                    mop=mop, mdims=[n] + ([opk, 0] if op == "fuse2" else []), tag=op, meta=meta)
+    if op in ("proj3", "umax3", "fuse3"):
+        n = nx * ny * nz
+        hop = {"proj3": "proj3d", "umax3": "umax3d", "fuse3": "fuse3d"}[op]
+        mop = op[:-1]
+        st = "own" if op == "proj3" else "spx" if op == "umax3" else rng.choice(["own", "ref"])
+        return Case(hop, ty, rng.choice(["marr", "marrd"]), st, [nx, ny, nz] + ([opk] if op == "fuse3" else []), nums,
+                    mop=mop, mdims=[n] + ([opk, 0] if op == "fuse3" else []), tag=op, meta=meta)
     if op in ("proj", "umax"):
         return Case(op, ty, rng.choice(fam4), "own" if op == "proj" else "spx", [nx], nums, tag=op, meta=meta)
     if op == "disc":
@@ -127,7 +151,7 @@ def mkcase(rng, ty, op, sizes, nums, opk, perms, gid, side):
     if op == "deduce":
         return Case(op, ty, rng.choice(fam4), rng.choice(["own", "ref"]), [nx, ny], nums, tag=op, meta=meta)
     if op == "abduce_with":
-        return Case(op, ty, rng.choice(fam4), "spx", [nx, ny], nums, tag=op, meta=meta)
+        return Case(op, ty, rng.choice(fam4), rng.choice(["spx", "ref", "own"]), [nx, ny], nums, tag=op, meta=meta)
     if op == "prod2":
         fam, lab = rng.choice([("arr", 0), ("marrd", 1)])
         return Case(op, ty, fam, "ref", [nx, nz], nums, mdims=[nx, nz, lab], tag=op, meta=meta)
@@ -142,6 +166,11 @@ def gen(rng, tier):
     shapes = {
         "proj": [{"X": n} for n in (2, 3, 4)], "umax": [{"X": n} for n in (2, 3, 4)], "disc": [{"X": n} for n in (2, 3, 4)],
         "fuse": [{"X": n} for n in (2, 3, 4)],
+        "proj2": [{"X": 2, "Z": 3}, {"X": 3, "Z": 2}], "umax2": [{"X": 2, "Z": 3}, {"X": 3, "Z": 2}],
+        "fuse2": [{"X": 2, "Z": 3}, {"X": 3, "Z": 2}],
+        "proj3": [{"X": 2, "Y": 3, "Z": 4}, {"X": 3, "Y": 2, "Z": 2}, {"X": 2, "Y": 2, "Z": 3}],
+        "umax3": [{"X": 2, "Y": 3, "Z": 4}, {"X": 3, "Y": 2, "Z": 2}],
+        "fuse3": [{"X": 2, "Y": 3, "Z": 4}, {"X": 2, "Y": 2, "Z": 3}],
         "mbr": [{"X": 3, "Y": 2}, {"X": 2, "Y": 3}, {"X": 4, "Y": 3}],
         "deduce": [{"X": 3, "Y": 2}, {"X": 2, "Y": 3}, {"X": 4, "Y": 3}],
         "inverse": [{"X": 3, "Y": 2}, {"X": 2, "Y": 3}, {"X": 4, "Y": 3}],
@@ -154,7 +183,7 @@ def gen(rng, tier):
             for sizes in shs:
                 for r in range(reps if op != "merge" else max(1, reps // 3)):
                     den = rng.choice([8, 16, 64])
-                    for opk in (range(4) if op == "fuse" else [0]):
+                    for opk in (range(4) if op in ("fuse", "fuse2", "fuse3") else [0]):
                         nums = build(rng, ty, op, sizes, den)
                         gid += 1
                         ident = {d: list(range(n)) for d, n in sizes.items()}
@@ -175,7 +204,7 @@ def gen(rng, tier):
 
 
 def scale(c, rm):
-    return 1 << 10 if c.meta["lop"] in ("merge", "inverse", "abduce_with", "umax", "deduce", "prod2") else 1
+    return 1 << 10 if c.meta["lop"] in ("merge", "inverse", "abduce_with", "umax", "umax2", "umax3", "deduce", "prod2") else 1
 
 
 def cross(cases, impl, model):
